@@ -125,6 +125,9 @@ type verif17Env struct {
 	// hookBefore (set by whitebox.go) runs before an event is applied and
 	// returns what to run after it.
 	hookBefore func(event) func()
+	// hookFinalTick (set by whitebox.go) runs right before the final fairness
+	// tick is applied, after the clock was advanced.
+	hookFinalTick func()
 
 	results [2]chan error
 	started [2]bool
@@ -211,6 +214,9 @@ func (e *verif17Env) applyOne(j int) {
 			dt = []int{1, 10, 30}[verif.Choice("tick_after", 3)]
 		}
 		e.clk.Add(time.Duration(dt) * time.Second)
+		if e.tickDelay > 0 && e.hookFinalTick != nil {
+			e.hookFinalTick()
+		}
 	}
 	p.accepted <- true
 	p.e.apply(e.st)
@@ -298,6 +304,12 @@ func (e *verif17Env) runNoCompletion() {
 	verif.Option("sched_fixed", 1)
 	withD2 := verif.Choice("second_download", 2) == 1
 	x := verif.Choice("other_event", 4)
+	if verif.Choice("torrent_opened_by_remote_peer_first", 2) == 1 {
+		// the control already exists because a remote peer connected for this
+		// torrent earlier (state.addIncomingConn -> addTorrent(.., false))
+		_, err := e.st.addTorrent("ns", e.arch.t, false)
+		verif.Assert("add-torrent", err == nil)
+	}
 	e.startDownload(0)
 	if withD2 {
 		e.startDownload(1)
